@@ -85,6 +85,7 @@ class LinearCompositeFunction(MDOFunction):
             x_vect: The design variable values.
 
         Returns:
-            The evaluation of the function at x_vect.
+            The evaluation of the Jacobian at x_vect,
+            i.e. the Jacobian of the function at :math:`Ax` multiplied by :math:`A`.
         """
-        return self._matrix.T.dot(self._function.jac(self._matrix.dot(x_vect)))
+        return self._function.jac(self._matrix.dot(x_vect)) @ self._matrix
